@@ -45,8 +45,9 @@ def fake_host(kind):
     if kind == 'darwin':
         errs = {i + 1: n for i, n in enumerate(derr)}
         sigs = {n: i + 1 for i, n in enumerate(dsig)}
-        afs = {'AF_UNSPEC': 0, 'AF_UNIX': 1, 'AF_INET': 2, 'AF_ROUTE': 17, 'AF_LINK': 18, 'AF_NDRV': 27, 'AF_INET6': 30,
-               'AF_SYSTEM': 32}
+        afs = {'AF_UNSPEC': 0, 'AF_UNIX': 1, 'AF_INET': 2, 'AF_SNA': 11, 'AF_DECnet': 12, 'AF_APPLETALK': 16, 'AF_ROUTE': 17,
+               'AF_LINK': 18, 'AF_IPX': 23, 'AF_NDRV': 27, 'AF_ISDN': 28, 'AF_INET6': 30, 'AF_NATM': 31, 'AF_SYSTEM': 32,
+               'AF_NETBIOS': 33, 'AF_PPP': 34}
         socks = {'SOCK_STREAM': 1, 'SOCK_DGRAM': 2, 'SOCK_RAW': 3, 'SOCK_RDM': 4, 'SOCK_SEQPACKET': 5}
         sol = 0xffff
     elif kind == 'linux':
@@ -112,7 +113,7 @@ def renderings(rnd):
             out[('errno', code)] = 'RAISED:' + type(ex).__name__
     for s in range(1, 32):
         out[('signal', s)] = param('BSC_sigaction', [s, 4, 5, 6], 0)
-    for af in (0, 1, 2, 17, 18, 27, 30, 32):
+    for af in (0, 1, 2, 11, 12, 16, 17, 18, 23, 27, 28, 30, 31, 32, 33, 34):
         for name in ('BSC_socket', 'BSC_socketpair', 'BSC_socket_delegate'):
             out[('af:' + name, af)] = param(name, [af, 1, 5, 6], 0)
     for st in range(1, 6):
